@@ -71,7 +71,7 @@ def gen(R, tier):
         # documented option: rotate the layout so that its longest axis is aligned with a vector
         spec['align_with'] = R.choice([[1, 0], [0, 1], [1, 1], [-1, 2]])
     draw = round(R.uniform(0.3, 5.0), 3) if ('string' in spec and R.chance(0.5)) else None   # drawing needs elements
-    return dict(draw=draw, input=spec, bond=round(R.choice([R.uniform(0.1, 1.0), 1.0, R.uniform(1.0, 10.0)]), 4),
+    return dict(draw=draw, np_bond=R.choice([1, 2, 3]) if R.chance(0.1) else None, input=spec, bond=round(R.choice([R.uniform(0.1, 1.0), 1.0, R.uniform(1.0, 10.0)]), 4),
                 np_seed=R.randint(0, 2 ** 31 - 1), features=['kind:' + kind, 'relabel:' + spec['relabel']] + (['edge_orders_incl_0'] if spec.get('orders') else []) + (['align_with'] if spec.get('align_with') else []) + (['nodes>=50'] if spec.get('n', 0) >= 50 else []) + (['through_draw_molecule'] if draw else []))
 
 
@@ -141,6 +141,12 @@ def oracle(case):
         kw['align_with'] = np.array(case['input']['align_with'], dtype=float)
     pos = sut(vespr_layout, g, default_bond=case['bond'], **kw)
     check_layout(g, pos, case['bond'], 'original labels')
+    if case.get('np_bond'):
+        # a bond length taken from a numpy array (np.int64 / np.float64 scalar)
+        for b in (np.int64(case['np_bond']), np.float64(case['np_bond'])):
+            np.random.seed(case['np_seed'])
+            posn = sut(vespr_layout, g, default_bond=b, **kw)
+            check_layout(g, posn, float(b), 'default_bond=%r (%s)' % (b, type(b).__name__))
     h = relabel(g, case['input']['relabel'])
     np.random.seed(case['np_seed'])
     pos2 = sut(vespr_layout, h, default_bond=case['bond'], **kw)
@@ -159,3 +165,13 @@ def oracle(case):
             finally:
                 plt.close(fig)
             check_layout(g, pos3, bond, 'draw_molecule(default_bond=%r)' % bond)
+        # what the caller does to a returned layout must not show up in the next drawing of the same graph
+        for n in pos3:
+            pos3[n] *= 3.0
+        fig, ax = plt.subplots()
+        try:
+            np.random.seed(case['np_seed'])
+            _, pos4 = sut(draw_molecule, g, ax=ax, layout_method='vespr', cg_mapping=False, default_bond=case['draw'])
+        finally:
+            plt.close(fig)
+        check_layout(g, pos4, case['draw'], 'draw_molecule again after the caller scaled the returned positions in place')
